@@ -143,15 +143,26 @@ def Column.flexible (c : Column) : Bool := c.ratio.isSome
 * `fixedRawMaximum`: with ratio columns, the width reserved for the other columns is `sum(_range.maximum)` although
   those columns get `_range.maximum or 1`; a column measuring 0 (empty cells, no padding) therefore pushes the table
   one cell over, the collapse + re-measure then shrink the ratio columns to their content and the "expanding" table
-  ends up at its natural width; repaired: reserve `_range.maximum or 1`. -/
+  ends up at its natural width; repaired: reserve `_range.maximum or 1`.
+* `noColumnsAsserts`: `_calculate_column_widths` of a table WITHOUT columns goes on to `ratio_distribute(…, [])`, whose
+  `assert total_ratio > 0` fails when the table expands / has a `width` / `min_width`; repaired: `return []` at once.
+* `flexNegative`: the flexible widths are used as `ratio_distribute` returns them — a trailing zero-ratio column is handed
+  *what is left*, which is negative when there is no room (`ratio_distribute(0, [1, 0], [1, 1]) = [1, -1]`), so the widths
+  can sum to 0 and the final `ratio_distribute` asserts; repaired: `max(0, width)`.
+(`Flags.repaired` repairs the first three only — the state other properties' witnesses were written against;
+`Flags.allRepaired` repairs all five.) -/
 structure Flags where
   leadingRepeat : Bool := true
   minWidthCapsExpand : Bool := true
   fixedRawMaximum : Bool := true
+  noColumnsAsserts : Bool := true
+  flexNegative : Bool := true
 deriving Repr, DecidableEq
 
 def Flags.today : Flags := {}
 def Flags.repaired : Flags := { leadingRepeat := false, minWidthCapsExpand := false, fixedRawMaximum := false }
+def Flags.allRepaired : Flags :=
+  { leadingRepeat := false, minWidthCapsExpand := false, fixedRawMaximum := false, noColumnsAsserts := false, flexNegative := false }
 
 structure Table where
   columns : List Column
@@ -254,7 +265,9 @@ def Table.firstWidths (fl : Flags) (t : Table) (maxWidth : Int) : Option (List I
       let flexibleWidth := maxWidth - fixed.sum
       match ratioDistribute flexibleWidth ratios (some flexMinimum) with
       | none => none
-      | some flexWidths => mergeFlex (t.columns.zip (widths.zip fixed)) flexWidths
+      | some flexWidths =>
+        let flexWidths := if fl.flexNegative then flexWidths else flexWidths.map (fun w => max 0 w)
+        mergeFlex (t.columns.zip (widths.zip fixed)) flexWidths
     else some widths
   else some widths
 
@@ -306,6 +319,7 @@ def Table.padWidths (fl : Flags) (t : Table) (widths : List Int) (tableWidth max
 
 /-- `Table._calculate_column_widths(console, max_width)`; `none` = `AssertionError` from `ratio_distribute`. -/
 def Table.calcWidths (fl : Flags) (t : Table) (maxWidth : Int) : Option (List Int) :=
+  if !fl.noColumnsAsserts && t.columns.isEmpty then some [] else
   match t.firstWidths fl maxWidth with
   | none => none
   | some widths =>
@@ -313,6 +327,24 @@ def Table.calcWidths (fl : Flags) (t : Table) (maxWidth : Int) : Option (List In
       let sw := t.shrinkWidths widths maxWidth
       t.padWidths fl sw.1 sw.2 maxWidth
     else t.padWidths fl widths widths.sum maxWidth
+
+/-- `Table.__rich_measure__(console, max_width)` (table.py:268-291); `none` = the `AssertionError` of `ratio_distribute`.
+(Not `Measurement.get`: that post-processes with `Measurement.getPost`.) -/
+def Table.richMeasure (fl : Flags) (t : Table) (maxWidth : Int) : Option Measurement :=
+  let maxWidth := t.width.getD maxWidth
+  if maxWidth < 0 then some ⟨0, 0⟩
+  else
+    let extra := t.extraWidth
+    match t.calcWidths fl (maxWidth - extra) with
+    | none => none
+    | some ws =>
+      let mw := ws.sum
+      let ms := t.indexed.map (fun ci => t.measureColumn ci.2 ci.1 mw)
+      let minimum := (ms.map (·.minimum)).sum + extra
+      let maximum := match t.width with
+        | none => (ms.map (·.maximum)).sum + extra
+        | some tw => tw
+      some ((Measurement.mk minimum maximum).clamp t.minWidth none)
 
 /-! ### `_render` -/
 
